@@ -52,6 +52,45 @@ func (fr *frame) bumpAlloc(st *state) {
 }
 
 func (fr *frame) callWithArgs(st *state, c *ssa.CallCommon, instr ssa.Instruction, pos token.Pos, args []string) []string {
+	// call-site assertions of the enclosing contract ("at" clauses), keyed by the call's source text
+	text := fr.anchorText(pos, "callfull")
+	if fr.top && len(fr.fc.c.At) > 0 {
+		if cls, ok := fr.fc.c.At[text]; ok && instr != nil {
+			env := fr.specEnv(st, fr.old)
+			for k, v := range fr.localsAt(instr.Block()) {
+				if _, ok := env.vars[k]; !ok {
+					env.vars[k] = v
+				}
+			}
+			fr.evalBlock = instr.Block()
+			for i, cl := range cls {
+				label := cl.Label
+				if label == "" {
+					label = fmt.Sprintf("c%d", i+1)
+				}
+				fr.oblige(st, "at", text+"."+label, pos, env.evalBool(cl.Expr, cl.Src), cl.Src)
+			}
+		}
+	}
+	res := fr.callWithArgs1(st, c, instr, pos, args)
+	if fr.top && fr.fc.c.Propagates {
+		sig := c.Signature()
+		if n := sig.Results().Len(); n > 0 && isErrorType(sig.Results().At(n-1).Type()) && len(res) == n {
+			skip := false
+			for _, np := range fr.fc.c.NoProp {
+				if strings.HasPrefix(text, np) {
+					skip = true
+				}
+			}
+			if !skip && instr != nil {
+				fr.callErrs = append(fr.callErrs, callErr{text: text, err: res[n-1], reach: st.reach, blk: instr.Block().Index})
+			}
+		}
+	}
+	return res
+}
+
+func (fr *frame) callWithArgs1(st *state, c *ssa.CallCommon, instr ssa.Instruction, pos token.Pos, args []string) []string {
 	fr.curCall = c
 	fc := fr.fc
 	e := fc.e
